@@ -1209,8 +1209,14 @@ impl<'a, 'b> Gen<'a, 'b> {
     }
 
     pub fn generate_item_block(&mut self, depth: usize) {
+        self.generate_item_block_opt(depth, false)
+    }
+
+    /// `force_block`: an `else` of the enclosing generate-if follows; a bare item could end in an open procedural
+    /// `if` (final if (a) x = 1;) that would take that `else` for itself
+    pub fn generate_item_block_opt(&mut self, depth: usize, force_block: bool) {
         // generate_block ::= generate_item | [label :] begin [: label] { generate_item } end [: label]
-        if self.t.chance(2, 3) {
+        if force_block || self.t.chance(2, 3) {
             self.kw("begin");
             let l = self.block_label_opt();
             let n = self.t.below(3);
@@ -1278,8 +1284,9 @@ impl<'a, 'b> Gen<'a, 'b> {
                 self.sym("(");
                 self.const_expr(1);
                 self.sym(")");
-                self.generate_item_block(depth);
-                if self.t.flip() {
+                let has_else = self.t.flip();
+                self.generate_item_block_opt(depth, has_else);
+                if has_else {
                     self.kw("else");
                     self.generate_item_block(depth);
                 }
